@@ -37,6 +37,9 @@ func c03Gen(rt *rapid.T) sPlan {
 		}
 	}
 	sb.Signers = seq(p.N)
+	if rapid.IntRange(0, 2).Draw(rt, "tamper") == 0 {
+		sb.Tamper = 1 + rapid.IntRange(0, p.N-1).Draw(rt, "tampered")
+	}
 	p.Batches = []sBatch{sb}
 	if rapid.IntRange(0, 2).Draw(rt, "revision") == 0 {
 		// a second batch in the same round that re-uses message identifiers of the first one, some of them with a revised
@@ -56,6 +59,9 @@ func c03Gen(rt *rapid.T) sPlan {
 }
 
 func c03Judge(obs *sigObs) *viol {
+	if obs.Viol != nil {
+		return obs.Viol
+	}
 	if obs.Err != nil {
 		return violf("harness", "%v", obs.Err)
 	}
@@ -207,6 +213,9 @@ func c03Run(t *testing.T, st *vstat.Stats, p sPlan) *viol {
 	}
 	if obs.Prelude != nil {
 		st.Class("same-tasks-signed-in-the-earlier-round-first")
+	}
+	if obs.Tampered > 0 {
+		st.Class("tampered-request-refused")
 	}
 	if nb > 0 {
 		st.Class("has-baked-range")
